@@ -10,6 +10,7 @@ import (
 	"context"
 	"errors"
 	"fmt"
+	"os"
 	"slices"
 	"strings"
 	"time"
@@ -89,6 +90,7 @@ type HCallObs struct {
 	Active []int    `json:"active"`
 	QTick  uint64   `json:"qtick"`
 	NTx    int      `json:"ntx"`
+	Err    int      `json:"err"` // Machine.Err(): 0 nil, 1 scripted AddErr error, 2 recovered panic, 3 other
 }
 
 type HistObs struct {
@@ -100,6 +102,8 @@ type HistObs struct {
 	Events    []string   `json:"events"` // q q:auto q:check init start finals end qend
 	HLog      []HLog     `json:"hlog"`
 	Crashed   bool       `json:"crashed"`
+	Hung      bool       `json:"hung"`
+	InternalErrs int     `json:"internal_errs"`
 	CrashMsg  string     `json:"crash_msg,omitempty"`
 	Extra     [][]string `json:"extra_tracers,omitempty"`
 	FinalTime []uint64   `json:"final_time"`
@@ -249,6 +253,9 @@ func histNames(in *HistInput) am.S {
 // stallFor is how long a "stall" fault blocks (HandlerTimeout is shorter).
 const stallFor = 120 * time.Millisecond
 
+// hangAfter is the watchdog bound for one top-level call.
+const hangAfter = 3 * time.Second
+
 func runHistory(in *HistInput) (obs *HistObs) {
 	obs = &HistObs{}
 	names := histNames(in)
@@ -292,6 +299,10 @@ func runHistory(in *HistInput) (obs *HistObs) {
 	}
 	m := am.New(context.Background(), schema, opts)
 	tr.mach = m
+	if os.Getenv("AMV_DEBUG_LOG") != "" {
+		m.SemLogger().SetLevel(am.LogDecisions)
+		m.SemLogger().SetLogger(func(_ am.LogLevel, msg string, args ...any) { fmt.Fprintf(os.Stderr, msg+"\n", args...) })
+	}
 	if err := m.VerifyStates(names); err != nil {
 		obs.Err = "verify: " + err.Error()
 		return obs
@@ -364,10 +375,24 @@ func runHistory(in *HistInput) (obs *HistObs) {
 		}
 	}
 
-	// top-level calls
+	// top-level calls; a watchdog detects a call that blocks forever
+	errCode := func() int {
+		e := m.Err()
+		switch {
+		case e == nil:
+			return 0
+		case errors.Is(e, errScripted):
+			return 1
+		case strings.Contains(e.Error(), "scripted panic"):
+			return 2
+		}
+		return 3
+	}
 	for _, c := range in.Calls {
 		var res am.Result
-		func() {
+		done := make(chan struct{})
+		go func() {
+			defer close(done)
 			defer func() {
 				if r := recover(); r != nil {
 					obs.Crashed = true
@@ -376,18 +401,33 @@ func runHistory(in *HistInput) (obs *HistObs) {
 			}()
 			res = doCall(m, names, c)
 		}()
-		if obs.Crashed {
+		select {
+		case <-done:
+		case <-time.After(hangAfter):
+			obs.Hung = true
+		}
+		if obs.Crashed || obs.Hung {
 			break
 		}
 		obs.Calls = append(obs.Calls, HCallObs{Result: uint64(res), Time: m.Time(nil),
-			Active: activeIdx(), QTick: m.QueueTick(), NTx: len(obs.Txs)})
+			Active: activeIdx(), QTick: m.QueueTick(), NTx: len(obs.Txs), Err: errCode()})
+	}
+	// drain Machine.ErrInternal()
+drainErrs:
+	for {
+		select {
+		case <-m.ErrInternal():
+			obs.InternalErrs++
+		default:
+			break drainErrs
+		}
 	}
 	obs.Events = events
 	obs.HLog = hlog
 	for _, e := range extraEv {
 		obs.Extra = append(obs.Extra, *e)
 	}
-	if !obs.Crashed {
+	if !obs.Crashed && !obs.Hung {
 		obs.FinalTime = m.Time(nil)
 	}
 	return obs
@@ -497,8 +537,8 @@ func coqHCase(in *HistInput, obs *HistObs) string {
 	fmt.Fprintf(&b, " h_calls := %s;\n", coqCalls(in.Calls))
 	// observed trace
 	fmt.Fprintf(&b, " h_obs := {| tr_calls := %s;\n", joinMap(obs.Calls, func(c HCallObs) string {
-		return fmt.Sprintf("{| co_result := %s; co_time := %s; co_active := %s; co_qtick := %d%%N; co_ntx := %d%%nat |}",
-			coqResult(c.Result), coqNList(c.Time), coqNatList(c.Active), c.QTick, c.NTx)
+		return fmt.Sprintf("{| co_result := %s; co_time := %s; co_active := %s; co_qtick := %d%%N; co_ntx := %d%%nat; co_err := %d%%N |}",
+			coqResult(c.Result), coqNList(c.Time), coqNatList(c.Active), c.QTick, c.NTx, c.Err)
 	}, ";\n   "))
 	fmt.Fprintf(&b, "  tr_txs := %s;\n", joinMap(obs.Txs, func(t HTx) string {
 		ty := []string{"MAdd", "MRemove", "MSet"}[t.Type]
@@ -514,9 +554,9 @@ func coqHCase(in *HistInput, obs *HistObs) string {
 		return fmt.Sprintf("{| hl_key := %s; hl_binding := %d%%nat; hl_active := %s; hl_clock := %s; hl_results := %s; hl_ret := %s |}",
 			coqHKey(h.Key), h.Binding, coqNatList(h.Active), coqNList(h.Clock), joinMap(h.Results, coqResult, "; "), coqBool(h.Ret))
 	}, ";\n   "))
-	fmt.Fprintf(&b, "  tr_crashed := %s; tr_fuel_ok := true |};\n", coqBool(obs.Crashed))
-	fmt.Fprintf(&b, " h_extra := %s; h_rerun := %d%%N |}", joinMap(obs.Extra, func(ev []string) string {
+	fmt.Fprintf(&b, "  tr_crashed := %s; tr_hung := %s; tr_fuel_ok := true |};\n", coqBool(obs.Crashed), coqBool(obs.Hung))
+	fmt.Fprintf(&b, " h_extra := %s; h_interr := %d%%nat; h_rerun := %d%%N |}", joinMap(obs.Extra, func(ev []string) string {
 		return joinMap(ev, coqTev, "; ")
-	}, "; "), obs.Rerun)
+	}, "; "), obs.InternalErrs, obs.Rerun)
 	return b.String()
 }
